@@ -25,9 +25,9 @@ SPECS = {
                        'p_detach': 0.03, 'p_restage': 0.03, 'algs': ['no', 'inf'] + B3,
                        'backends': ['plain', 'dictarch', 'dictarch', 'dictarch', 'dictarch', 'file', 'dir', 'sql', 'null'],
                        'maxsizes': [1, 1, 2, 2, 3, 3, 4, 5]}),
-    'C05': dict(quick=(1000, 60), thorough=(12000, 100),
+    'C05': dict(quick=(1400, 60), thorough=(12000, 100),
                 focus={'weights': {'load': 9, 'archset': 8, 'clear': 1}, 'p_prologue': 0.6, 'p_special': 0.15, 'p_loadfill': 0.3,
-                       'algs': ['no', 'inf'] + B3, 'p_detach': 0.2, 'maxsizes': [1, 1, 2, 2, 3, 4, 5, 10]}),
+                       'algs': ['no', 'inf'] + B3, 'p_detach': 0.3, 'maxsizes': [1, 1, 2, 2, 3, 4, 5, 10]}),
     'C06': dict(quick=(800, 140), thorough=(10000, 220),
                 focus={'algs': BOUNDED, 'maxsizes': [1, 1, 2, 2, 3, 4, 5], 'p_special': 0.05, 'p_raising': 0.1,
                        'weights': {'call': 90, 'load': 1, 'dump': 1, 'clear': 0.3, 'archived': 0.5, 'setarch': 0.3,
